@@ -127,12 +127,56 @@ Theorem C20_reported_read_is_unbound :
 Proof. exact reported_read_unbound. Qed.
 Print Assumptions C20_reported_read_is_unbound.
 
+(* (iv) FlowModel.prep_data: every configuration that is not rejected reaches the two DataLoaders with a
+   training batch size >= 2 and a validation batch size that is None or positive - for EVERY
+   validation-batch-size expression (the regenerated one is plugged in on each run) *)
+Theorem C20_loader_batch_sizes :
+  forall vbs n_train n_val s b v, data_loaders vbs n_train n_val s = Some (b, v) ->
+    match s with BSint b0 => 1 <= b0 | BSall => 1 <= n_train | BSother => True end ->
+    2 <= b /\ loader_ok v.
+Proof. exact loader_batch_sizes. Qed.
+Print Assumptions C20_loader_batch_sizes.
+
+(* ... and an expression that meets P_val_loader (today lemma) never makes the loader reject a
+   configuration that check_batch_size accepted: no failure at the first training *)
+Theorem C20_loader_never_rejects :
+  forall vbs, P_val_loader vbs -> forall n_train n_val s b,
+    resolve_batch_size s n_train = Some b -> 1 <= b -> 0 <= n_val ->
+    forall b', check_batch_size n_train b = Some b' -> data_loaders vbs n_train n_val s = Some (b', vbs n_val b').
+Proof. exact loader_never_rejects. Qed.
+Print Assumptions C20_loader_never_rejects.
+
+Theorem C20_check_batch_size : forall n bs b, check_batch_size n bs = Some b -> 1 <= bs -> 2 <= b /\ b <= bs.
+Proof. exact check_batch_size_bounds. Qed.
+Print Assumptions C20_check_batch_size.
+
+(* (v) one pass of the population loop: for every set of paths accepted by the checker, whatever the
+   sizes left by the shrinking steps (backward pass, truncation), no reduction (max / nanmax ...) is ever
+   applied to an empty batch *)
+Theorem C20_reductions_guarded :
+  forall ps, paths_guarded ps = true -> forall p, In p ps -> forall size o, exec_pass p size o 0%nat <> RError.
+Proof. exact reductions_guarded. Qed.
+Print Assumptions C20_reductions_guarded.
+
+Theorem C20_unguarded_reduction_refuted : exists o, exec_pass [LShrink; LReduce] 5%nat o 0%nat = RError.
+Proof. exact unguarded_fails. Qed.
+Print Assumptions C20_unguarded_reduction_refuted.
+
 (* non-vacuity *)
 Example C20_nonvacuous_loops :
   populate0 10 false 5 4 100 (stream_of (mkBatch false false 0) [mkBatch false false 2; mkBatch true false 0; mkBatch false false 3]) = Done 3 5 12
   /\ populate0 10 true 5 4 9 (stream_of (mkBatch false false 0) [mkBatch false false 0; mkBatch false true 3; mkBatch false true 4]) = Done 3 4 12
   /\ ins_draw0 10 5 5 (stream_of 0 [2; 0; 4]) = Done 3 6 15
   /\ populate0 1000 false 5 4 100 stuck = OutOfFuel.
+Proof. vm_compute. repeat split. Qed.
+
+Example C20_nonvacuous_loaders :
+  data_loaders val_batch_size 45 5 (BSint 1000) = Some (100, Some 5)
+  /\ data_loaders val_batch_size 50 0 BSall = Some (50, None)
+  /\ data_loaders (fun n b => Some (Z.min n b)) 50 0 BSall = None
+  /\ check_batch_size 103 100 = Some 93 /\ check_batch_size 10 1 = None
+  /\ paths_guarded [[LShrink; LGuard; LReduce]; [LShrink; LShrink; LGuard; LReduce; LReduce]] = true
+  /\ paths_guarded [[LShrink; LShrink; LGuard; LReduce]; [LShrink; LReduce]] = false.
 Proof. vm_compute. repeat split. Qed.
 
 Local Open Scope string_scope.
